@@ -22,6 +22,7 @@ struct Step {
     send: Vec<Vec<u8>>,
     close: bool,
     stall_ms: u64,
+    slow_us: u64, // while waiting for this step: read at most 2 KiB at a time and pause this long after each read (back-pressure on the client's writes)
 }
 
 fn parse_steps(v: &Value) -> Vec<Step> {
@@ -36,6 +37,7 @@ fn parse_steps(v: &Value) -> Vec<Step> {
                 .unwrap_or_default(),
             close: s["close"].as_bool().unwrap_or(false),
             stall_ms: s["stall_ms"].as_u64().unwrap_or(0),
+            slow_us: s["slow_us"].as_u64().unwrap_or(0),
         })
         .collect()
 }
@@ -100,11 +102,13 @@ fn serve_conn(mut sock: TcpStream, steps: Vec<Step>, read_cap: Duration) -> Serv
                 log.events.push(json!(["T"]));
                 break None;
             }
-            match sock.read(&mut tmp) {
+            let lim = if st.slow_us > 0 { 2048 } else { tmp.len() };
+            match sock.read(&mut tmp[..lim]) {
                 Ok(0) => eof = true,
                 Ok(n) => {
                     pending.extend_from_slice(&tmp[..n]);
                     log.recv_all.extend_from_slice(&tmp[..n]);
+                    if st.slow_us > 0 { std::thread::sleep(Duration::from_micros(st.slow_us)); }
                 }
                 Err(e) if e.kind() == std::io::ErrorKind::WouldBlock || e.kind() == std::io::ErrorKind::TimedOut => {}
                 Err(_) => eof = true,
